@@ -89,10 +89,23 @@ Lemma read_payload st p tl : wf_pkt p -> s_in st = p_payload p ++ tl ->
   read_exact (length (p_payload p)) st = (set_in st tl, Some (p_payload p)).
 Proof. intros _ Hin. apply read_exact_app; [reflexivity | exact Hin]. Qed.
 
-(* ------------------------------------------------------------------ the filter loop *)
+(* ------------------------------------------------------------------ what may follow the last complete packet *)
+(* The input is a list of complete well-framed packets followed by a tail: nothing, fewer than
+   64 bytes (a cut header), or a complete header with only the first j bytes of its payload. *)
+Inductive tail := TL_none | TL_hdr (b : list N) | TL_cut (p : packet) (j : nat).
+Definition tail_bytes (t : tail) : list N :=
+  match t with TL_none => [] | TL_hdr b => b | TL_cut p j => p_hdr p ++ firstn j (p_payload p) end.
+Definition tail_ok (t : tail) : Prop :=
+  match t with
+  | TL_none => True
+  | TL_hdr b => (length b < 64)%nat
+  | TL_cut p j => wf_pkt p /\ (j < length (p_payload p))%nat
+  end.
+Definition need (t : tail) : nat := match t with TL_cut _ _ => 2%nat | _ => 1%nat end.
+
 (* what the scanner state looks like when it stands at the start of a packet list *)
-Definition at_pkts (st : sstate) (off : N) (pkts : list packet) : Prop :=
-  s_in st = serialize pkts /\ s_mem st = off.
+Definition at_pkts (st : sstate) (off : N) (pkts : list packet) (t : tail) : Prop :=
+  s_in st = serialize pkts ++ tail_bytes t /\ s_mem st = off.
 
 Lemma serialize_cons p r : serialize (p :: r) = p_bytes p ++ serialize r.
 Proof. reflexivity. Qed.
@@ -104,33 +117,121 @@ Fixpoint split_match (c : scfg) (off : N) (pkts : list packet) : option (N * pac
   | p :: r => if pmatch c p then Some (off, p, r) else split_match c (off + p_size p) r
   end.
 
-Lemma filter_loop_spec c t : sc_filter c = Some t -> forall pkts fuel st off,
-  Forall wf_pkt pkts -> (length pkts < fuel)%nat -> at_pkts st off pkts ->
-  match split_match c off pkts with
-  | None => exists st', filter_loop fuel c t st = (st', SErr E_eof) /\ s_in st' = []
-  | Some (off', p, rest) =>
-      exists st', filter_loop fuel c t st = (st', SOk (decode_rdh (p_hdr p))) /\
-                  s_in st' = p_payload p ++ serialize rest /\ s_mem st' = off'
+Lemma read_short st : (length (s_in st) < 64)%nat -> read_exact 64 st = (set_in st [], None).
+Proof.
+  intros H. unfold read_exact.
+  assert (E : Nat.leb 64 (length (s_in st)) = false) by (apply Nat.leb_gt; exact H). rewrite E. reflexivity.
+Qed.
+
+Lemma read_cut_hdr st p j : wf_pkt p -> s_in st = p_hdr p ++ firstn j (p_payload p) ->
+  read_exact 64 st = (set_in st (firstn j (p_payload p)), Some (p_hdr p)).
+Proof. intros H Hin. apply read_exact_app; [apply H | exact Hin]. Qed.
+
+Lemma drop_all : forall n (l : list N), (length l <= n)%nat -> drop n l = [].
+Proof. induction n as [|n IHn]; intros [|x l] Hle; cbn in *; try reflexivity; try lia. apply IHn. lia. Qed.
+
+Lemma seek_cut src st p j : (j < length (p_payload p))%nat -> s_in st = firstn j (p_payload p) ->
+  seek_rel src (N.to_nat (p_size p - 64)) st =
+  (set_in st [], match src with Src_file => true | Src_pipe => false end).
+Proof.
+  intros Hj Hin.
+  assert (Hl : length (s_in st) = j) by (rewrite Hin, firstn_length; lia).
+  assert (Hn : N.to_nat (p_size p - 64) = length (p_payload p)) by (unfold p_size; lia).
+  rewrite Hn. unfold seek_rel. destruct src.
+  - rewrite drop_all by lia. reflexivity.
+  - assert (E : Nat.leb (length (p_payload p)) (length (s_in st)) = false) by (apply Nat.leb_gt; lia).
+    rewrite E. reflexivity.
+Qed.
+
+Lemma read_cut_payload st p j : (j < length (p_payload p))%nat -> s_in st = firstn j (p_payload p) ->
+  read_exact (length (p_payload p)) st = (set_in st [], None).
+Proof.
+  intros Hj Hin. unfold read_exact.
+  assert (Hl : length (s_in st) = j) by (rewrite Hin, firstn_length; lia).
+  assert (E : Nat.leb (length (p_payload p)) (length (s_in st)) = false) by (apply Nat.leb_gt; lia).
+  rewrite E. reflexivity.
+Qed.
+
+(* ---- the filter loop standing at the tail ---- *)
+Inductive tail_res := TR_eof | TR_match (p : packet) (j : nat) | TR_invalid_input.
+Definition tail_loop (c : scfg) (t : tail) : tail_res :=
+  match t with
+  | TL_cut p j => if pmatch c p then TR_match p j
+                  else match sc_src c with Src_file => TR_eof | Src_pipe => TR_invalid_input end
+  | _ => TR_eof
+  end.
+
+Lemma filter_loop_tail c ft : sc_filter c = Some ft -> forall t fuel st off,
+  tail_ok t -> (need t <= fuel)%nat -> s_in st = tail_bytes t -> s_mem st = off ->
+  match tail_loop c t with
+  | TR_eof => exists st', filter_loop fuel c ft st = (st', SErr E_eof) /\ s_in st' = []
+  | TR_match p j => exists st', filter_loop fuel c ft st = (st', SOk (decode_rdh (p_hdr p))) /\
+                                s_in st' = firstn j (p_payload p) /\ s_mem st' = off
+  | TR_invalid_input => exists st', filter_loop fuel c ft st = (st', SErr E_invalid_input) /\ s_in st' = []
   end.
 Proof.
-  intros Hf. induction pkts as [|p r IH]; intros fuel st off Hwf Hfuel [Hin Hmem].
-  - destruct fuel as [|f]; [cbn in Hfuel; lia|]. cbn [split_match filter_loop].
-    rewrite (read_eof st Hin). eexists; split; reflexivity.
+  intros Hf t fuel st off Hok Hfuel Hin Hmem.
+  destruct t as [|b|p j]; cbn [tail_loop tail_bytes need tail_ok] in *.
+  - destruct fuel as [|f]; [lia|]. cbn [filter_loop]. rewrite (read_eof st Hin). eexists; split; reflexivity.
+  - destruct fuel as [|f]; [lia|]. cbn [filter_loop].
+    rewrite (read_short st) by (rewrite Hin; exact Hok). eexists; split; reflexivity.
+  - destruct Hok as [Hp Hj]. destruct fuel as [|[|f]]; [lia|lia|]. cbn [filter_loop].
+    rewrite (read_cut_hdr st p j Hp Hin). rewrite (wf_offset_ok p Hp). cbn [negb].
+    unfold pmatch. rewrite Hf. cbn [matches_opt].
+    set (st1 := set_in st (firstn j (p_payload p))).
+    destruct (collect_seen_in st1 (decode_rdh (p_hdr p))) as [Hi2 Hm2].
+    destruct (matches ft (decode_rdh (p_hdr p))) eqn:Hm.
+    + destruct (count_filtered_in (collect_seen st1 (decode_rdh (p_hdr p)))) as [Hi3 Hm3].
+      eexists; split; [reflexivity|]. rewrite Hi3, Hi2, Hm3, Hm2. split; [reflexivity|exact Hmem].
+    + unfold seek_next. rewrite (wf_offset p Hp).
+      set (st2 := set_mem (collect_seen st1 (decode_rdh (p_hdr p))) _).
+      assert (Hin2 : s_in st2 = firstn j (p_payload p)) by (subst st2; cbn; exact Hi2).
+      rewrite (seek_cut (sc_src c) st2 p j Hj Hin2).
+      destruct (sc_src c).
+      * rewrite (read_eof (set_in st2 []) eq_refl). eexists; split; reflexivity.
+      * eexists; split; reflexivity.
+Qed.
+
+(* ------------------------------------------------------------------ the filter loop *)
+Definition tail_off (off : N) (pkts : list packet) : N := off + total_size pkts.
+
+Lemma filter_loop_spec c t : sc_filter c = Some t -> forall pkts tl fuel st off,
+  Forall wf_pkt pkts -> tail_ok tl -> (length pkts + need tl <= fuel)%nat -> at_pkts st off pkts tl ->
+  match split_match c off pkts with
+  | Some (off', p, rest) =>
+      exists st', filter_loop fuel c t st = (st', SOk (decode_rdh (p_hdr p))) /\
+                  s_in st' = p_payload p ++ serialize rest ++ tail_bytes tl /\ s_mem st' = off'
+  | None =>
+      match tail_loop c tl with
+      | TR_eof => exists st', filter_loop fuel c t st = (st', SErr E_eof) /\ s_in st' = []
+      | TR_match p j => exists st', filter_loop fuel c t st = (st', SOk (decode_rdh (p_hdr p))) /\
+                                    s_in st' = firstn j (p_payload p) /\ s_mem st' = tail_off off pkts
+      | TR_invalid_input => exists st', filter_loop fuel c t st = (st', SErr E_invalid_input) /\ s_in st' = []
+      end
+  end.
+Proof.
+  intros Hf. induction pkts as [|p r IH]; intros tl fuel st off Hwf Hok Hfuel [Hin Hmem].
+  - cbn [split_match]. cbn [serialize concat map app] in Hin.
+    pose proof (filter_loop_tail c t Hf tl fuel st off Hok ltac:(cbn in Hfuel; lia) Hin Hmem) as H.
+    unfold tail_off, total_size. cbn [fold_right]. rewrite N.add_0_r. exact H.
   - destruct fuel as [|f]; [cbn in Hfuel; lia|].
     pose proof (Forall_inv Hwf) as Hp; pose proof (Forall_inv_tail Hwf) as Hr.
-    cbn [split_match filter_loop]. rewrite serialize_cons in Hin.
-    rewrite (read_hdr st p (serialize r) Hp Hin). rewrite (wf_offset_ok p Hp). cbn [negb].
+    cbn [split_match filter_loop]. rewrite serialize_cons, <- app_assoc in Hin.
+    rewrite (read_hdr st p (serialize r ++ tail_bytes tl) Hp Hin). rewrite (wf_offset_ok p Hp). cbn [negb].
     unfold pmatch at 1. rewrite Hf. cbn [matches_opt].
-    set (st1 := set_in st (p_payload p ++ serialize r)).
+    set (st1 := set_in st (p_payload p ++ serialize r ++ tail_bytes tl)).
     destruct (collect_seen_in st1 (decode_rdh (p_hdr p))) as [Hi2 Hm2].
     destruct (matches t (decode_rdh (p_hdr p))) eqn:Hm.
     + destruct (count_filtered_in (collect_seen st1 (decode_rdh (p_hdr p)))) as [Hi3 Hm3].
       eexists; split; [reflexivity|]. rewrite Hi3, Hi2, Hm3, Hm2. split; [reflexivity|exact Hmem].
     + unfold seek_next. rewrite (wf_offset p Hp).
       set (st2 := set_mem (collect_seen st1 (decode_rdh (p_hdr p))) _).
-      assert (Hin2 : s_in st2 = p_payload p ++ serialize r) by (subst st2; cbn; exact Hi2).
-      rewrite (seek_payload (sc_src c) st2 p (serialize r) Hp Hin2).
-      apply IH; [exact Hr | cbn in Hfuel; lia |].
+      assert (Hin2 : s_in st2 = p_payload p ++ serialize r ++ tail_bytes tl) by (subst st2; cbn; exact Hi2).
+      rewrite (seek_payload (sc_src c) st2 p (serialize r ++ tail_bytes tl) Hp Hin2).
+      assert (Hto : tail_off off (p :: r) = tail_off (off + p_size p) r).
+      { unfold tail_off, total_size. cbn [fold_right]. lia. }
+      rewrite Hto.
+      apply IH; [exact Hr | exact Hok | cbn in Hfuel; lia |].
       split; [reflexivity|]. subst st2. cbn. rewrite Hm2. subst st1. cbn. rewrite Hmem. reflexivity.
 Qed.
 
@@ -148,6 +249,13 @@ Proof.
     split; [cbn [forallb]; rewrite Hm, Hs; reflexivity | exact Hq].
 Qed.
 
+Lemma split_match_none c : forall pkts off, split_match c off pkts = None ->
+  forallb (fun p => negb (pmatch c p)) pkts = true.
+Proof.
+  induction pkts as [|p r IH]; intros off H; [reflexivity|]. cbn [split_match] in H.
+  destruct (pmatch c p) eqn:Hm; [discriminate|]. cbn [forallb]. rewrite Hm. exact (IH _ H).
+Qed.
+
 Lemma split_match_wf c pkts off off' q rest :
   Forall wf_pkt pkts -> split_match c off pkts = Some (off', q, rest) -> wf_pkt q /\ Forall wf_pkt rest.
 Proof.
@@ -162,24 +270,74 @@ Proof.
   rewrite app_length. cbn. lia.
 Qed.
 
-Lemma load_rdh_cru_spec c pkts fuel st off :
-  Forall wf_pkt pkts -> (length pkts <= fuel)%nat -> at_pkts st off pkts ->
-  match split_match c off pkts with
-  | None => exists st', load_rdh_cru fuel c st = (st', SErr E_eof) /\ s_in st' = []
-  | Some (off', q, rest) =>
-      exists st', load_rdh_cru fuel c st = (st', SOk (decode_rdh (p_hdr q))) /\
-                  s_in st' = p_payload q ++ serialize rest /\ s_mem st' = off'
+(* outcome of load_rdh_cru standing at the tail (it applies the filter itself first) *)
+Lemma load_rdh_cru_tail c tl fuel st off :
+  tail_ok tl -> (need tl <= S fuel)%nat -> s_in st = tail_bytes tl -> s_mem st = off ->
+  match tail_loop c tl with
+  | TR_eof => exists st', load_rdh_cru fuel c st = (st', SErr E_eof) /\ s_in st' = []
+  | TR_match p j => exists st', load_rdh_cru fuel c st = (st', SOk (decode_rdh (p_hdr p))) /\
+                                s_in st' = firstn j (p_payload p) /\ s_mem st' = off
+  | TR_invalid_input => exists st', load_rdh_cru fuel c st = (st', SErr E_invalid_input) /\ s_in st' = []
   end.
 Proof.
-  intros Hwf Hfuel [Hin Hmem]. unfold load_rdh_cru.
-  destruct pkts as [|p r].
-  - cbn [split_match]. rewrite (read_eof st Hin). eexists; split; reflexivity.
-  - pose proof (Forall_inv Hwf) as Hp; pose proof (Forall_inv_tail Hwf) as Hr.
-    rewrite serialize_cons in Hin.
-    rewrite (read_hdr st p (serialize r) Hp Hin).
-    set (st1 := set_in st (p_payload p ++ serialize r)).
+  intros Hok Hfuel Hin Hmem. unfold load_rdh_cru.
+  destruct tl as [|b|p j]; cbn [tail_loop tail_bytes need tail_ok] in *.
+  - rewrite (read_eof st Hin). eexists; split; reflexivity.
+  - rewrite (read_short st) by (rewrite Hin; exact Hok). eexists; split; reflexivity.
+  - destruct Hok as [Hp Hj].
+    rewrite (read_cut_hdr st p j Hp Hin).
+    set (st1 := set_in st (firstn j (p_payload p))).
     set (st2 := if s_mem st1 =? 0 then emit st1 _ else st1).
-    assert (H2 : s_in st2 = p_payload p ++ serialize r /\ s_mem st2 = off).
+    assert (H2 : s_in st2 = firstn j (p_payload p) /\ s_mem st2 = off).
+    { subst st2. destruct (s_mem st1 =? 0); split; try reflexivity; exact Hmem. }
+    destruct H2 as [Hi2 Hm2].
+    destruct (collect_seen_in st2 (decode_rdh (p_hdr p))) as [Hi3 Hm3].
+    rewrite (wf_offset_ok p Hp). cbn [negb]. unfold pmatch.
+    destruct (sc_filter c) as [t|] eqn:Hf; cbn [matches_opt].
+    + destruct (matches t (decode_rdh (p_hdr p))) eqn:Hm.
+      * destruct (count_filtered_in (collect_seen st2 (decode_rdh (p_hdr p)))) as [Hi4 Hm4].
+        set (s4 := count_filtered _) in *.
+        destruct (add_payload_in s4 (rdh_payload_size (decode_rdh (p_hdr p)))) as [Hi5 Hm5].
+        eexists; split; [reflexivity|]. rewrite Hi5, Hi4, Hi3, Hm5, Hm4, Hm3. split; assumption.
+      * unfold seek_next. rewrite (wf_offset p Hp).
+        set (s3 := set_mem (collect_seen st2 (decode_rdh (p_hdr p))) _).
+        assert (HiS : s_in s3 = firstn j (p_payload p)) by (subst s3; cbn; rewrite Hi3; exact Hi2).
+        rewrite (seek_cut (sc_src c) s3 p j Hj HiS).
+        destruct (sc_src c).
+        -- destruct fuel as [|f]; [lia|]. cbn [filter_loop].
+           rewrite (read_eof (set_in s3 []) eq_refl). eexists; split; reflexivity.
+        -- eexists; split; reflexivity.
+    + destruct (add_payload_in (collect_seen st2 (decode_rdh (p_hdr p))) (rdh_payload_size (decode_rdh (p_hdr p)))) as [Hi5 Hm5].
+      eexists; split; [reflexivity|]. rewrite Hi5, Hi3, Hm5, Hm3. split; assumption.
+Qed.
+
+Lemma load_rdh_cru_spec c pkts tl fuel st off :
+  Forall wf_pkt pkts -> tail_ok tl -> (length pkts + need tl <= S fuel)%nat -> at_pkts st off pkts tl ->
+  match split_match c off pkts with
+  | Some (off', q, rest) =>
+      exists st', load_rdh_cru fuel c st = (st', SOk (decode_rdh (p_hdr q))) /\
+                  s_in st' = p_payload q ++ serialize rest ++ tail_bytes tl /\ s_mem st' = off'
+  | None =>
+      match tail_loop c tl with
+      | TR_eof => exists st', load_rdh_cru fuel c st = (st', SErr E_eof) /\ s_in st' = []
+      | TR_match p j => exists st', load_rdh_cru fuel c st = (st', SOk (decode_rdh (p_hdr p))) /\
+                                    s_in st' = firstn j (p_payload p) /\ s_mem st' = tail_off off pkts
+      | TR_invalid_input => exists st', load_rdh_cru fuel c st = (st', SErr E_invalid_input) /\ s_in st' = []
+      end
+  end.
+Proof.
+  intros Hwf Hok Hfuel [Hin Hmem].
+  destruct pkts as [|p r].
+  - cbn [split_match]. cbn [serialize concat map app] in Hin.
+    pose proof (load_rdh_cru_tail c tl fuel st off Hok ltac:(cbn in Hfuel; lia) Hin Hmem) as H.
+    unfold tail_off, total_size. cbn [fold_right]. rewrite N.add_0_r. exact H.
+  - unfold load_rdh_cru.
+    pose proof (Forall_inv Hwf) as Hp; pose proof (Forall_inv_tail Hwf) as Hr.
+    rewrite serialize_cons, <- app_assoc in Hin.
+    rewrite (read_hdr st p (serialize r ++ tail_bytes tl) Hp Hin).
+    set (st1 := set_in st (p_payload p ++ serialize r ++ tail_bytes tl)).
+    set (st2 := if s_mem st1 =? 0 then emit st1 _ else st1).
+    assert (H2 : s_in st2 = p_payload p ++ serialize r ++ tail_bytes tl /\ s_mem st2 = off).
     { subst st2. destruct (s_mem st1 =? 0); split; try reflexivity; exact Hmem. }
     destruct H2 as [Hi2 Hm2].
     destruct (collect_seen_in st2 (decode_rdh (p_hdr p))) as [Hi3 Hm3].
@@ -193,56 +351,105 @@ Proof.
         eexists; split; [reflexivity|]. rewrite Hi5, Hi4, Hi3, Hm5, Hm4, Hm3. split; assumption.
       * unfold seek_next. rewrite (wf_offset p Hp).
         set (s3 := set_mem (collect_seen st2 (decode_rdh (p_hdr p))) _).
-        assert (HiS : s_in s3 = p_payload p ++ serialize r) by (subst s3; cbn; rewrite Hi3; exact Hi2).
-        rewrite (seek_payload (sc_src c) s3 p (serialize r) Hp HiS).
-        assert (Hat : at_pkts (set_in s3 (serialize r)) (off + p_size p) r).
+        assert (HiS : s_in s3 = p_payload p ++ serialize r ++ tail_bytes tl) by (subst s3; cbn; rewrite Hi3; exact Hi2).
+        rewrite (seek_payload (sc_src c) s3 p (serialize r ++ tail_bytes tl) Hp HiS).
+        assert (Hat : at_pkts (set_in s3 (serialize r ++ tail_bytes tl)) (off + p_size p) r tl).
         { split; [reflexivity|]. subst s3. cbn. rewrite Hm3, Hm2. reflexivity. }
-        pose proof (filter_loop_spec c t Hf r fuel (set_in s3 (serialize r)) (off + p_size p) Hr
+        pose proof (filter_loop_spec c t Hf r tl fuel (set_in s3 (serialize r ++ tail_bytes tl)) (off + p_size p) Hr Hok
                       ltac:(cbn in Hfuel; lia) Hat) as HL.
+        assert (Hto : tail_off off (p :: r) = tail_off (off + p_size p) r).
+        { unfold tail_off, total_size. cbn [fold_right]. lia. }
+        rewrite Hto.
         destruct (split_match c (off + p_size p) r) as [[[off' q] rest]|].
         -- destruct HL as (st' & HL & HiL & HmL). rewrite HL.
            destruct (add_payload_in st' (rdh_payload_size (decode_rdh (p_hdr q)))) as [Hi5 Hm5].
            eexists; split; [reflexivity|]. rewrite Hi5, Hm5. split; assumption.
-        -- destruct HL as (st' & HL & HiL). rewrite HL. eexists; split; [reflexivity|exact HiL].
+        -- destruct (tail_loop c tl) as [|q j|].
+           ++ destruct HL as (st' & HL & HiL). rewrite HL. eexists; split; [reflexivity|exact HiL].
+           ++ destruct HL as (st' & HL & HiL & HmL). rewrite HL.
+              destruct (add_payload_in st' (rdh_payload_size (decode_rdh (p_hdr q)))) as [Hi5 Hm5].
+              eexists; split; [reflexivity|]. rewrite Hi5, Hm5. split; assumption.
+           ++ destruct HL as (st' & HL & HiL). rewrite HL. eexists; split; [reflexivity|exact HiL].
     + destruct (add_payload_in (collect_seen st2 (decode_rdh (p_hdr p))) (rdh_payload_size (decode_rdh (p_hdr p)))) as [Hi5 Hm5].
       eexists; split; [reflexivity|]. rewrite Hi5, Hi3, Hm5, Hm3. split; assumption.
 Qed.
 
-Lemma finish_cdp_spec c st q rest off : wf_pkt q ->
-  s_in st = p_payload q ++ serialize rest -> s_mem st = off ->
+Lemma finish_cdp_spec c st q rest tl off : wf_pkt q ->
+  s_in st = p_payload q ++ serialize rest ++ tail_bytes tl -> s_mem st = off ->
   exists st', finish_cdp c st (decode_rdh (p_hdr q)) off = (st', SOk (mk_cdp c (off, q))) /\
-              at_pkts st' (off + p_size q) rest.
+              at_pkts st' (off + p_size q) rest tl.
 Proof.
   intros Hq Hi Hm. unfold finish_cdp, mk_cdp. cbn [fst snd].
   destruct (sc_skip c).
   - unfold seek_next. rewrite (wf_offset q Hq).
     set (sB := set_mem st _).
-    assert (HiB : s_in sB = p_payload q ++ serialize rest) by (subst sB; exact Hi).
-    rewrite (seek_payload (sc_src c) sB q (serialize rest) Hq HiB).
+    assert (HiB : s_in sB = p_payload q ++ serialize rest ++ tail_bytes tl) by (subst sB; exact Hi).
+    rewrite (seek_payload (sc_src c) sB q _ Hq HiB).
     eexists; split; [reflexivity|]. split; [reflexivity|]. subst sB. cbn. rewrite Hm. reflexivity.
   - rewrite (wf_offset q Hq), (wf_payload_size q Hq).
     set (sB := set_mem st _).
-    assert (HiB : s_in sB = p_payload q ++ serialize rest) by (subst sB; exact Hi).
-    rewrite (read_payload sB q (serialize rest) Hq HiB).
+    assert (HiB : s_in sB = p_payload q ++ serialize rest ++ tail_bytes tl) by (subst sB; exact Hi).
+    rewrite (read_payload sB q _ Hq HiB).
     eexists; split; [reflexivity|]. split; [reflexivity|]. subst sB. cbn. rewrite Hm. reflexivity.
 Qed.
 
-Lemma load_cdp_spec c pkts fuel st off :
-  Forall wf_pkt pkts -> (length pkts <= fuel)%nat -> at_pkts st off pkts ->
+(* the packet whose payload is cut: its header is still handed on, with an empty payload;
+   an [E100] (payload read) or, on a pipe with skipped payloads, [E101] message is emitted,
+   labelled with the offset just past the packet *)
+Definition cut_cdp (off : N) (p : packet) : cdp := {| c_rdh := decode_rdh (p_hdr p); c_payload := []; c_off := off |}.
+
+Lemma finish_cdp_cut c st p j off : wf_pkt p -> (j < length (p_payload p))%nat ->
+  s_in st = firstn j (p_payload p) -> s_mem st = off ->
+  exists st', finish_cdp c st (decode_rdh (p_hdr p)) off = (st', SOk (cut_cdp off p)) /\ s_in st' = [].
+Proof.
+  intros Hp Hj Hi Hm. unfold finish_cdp, cut_cdp.
+  destruct (sc_skip c).
+  - unfold seek_next. rewrite (wf_offset p Hp).
+    set (sB := set_mem st _).
+    assert (HiB : s_in sB = firstn j (p_payload p)) by (subst sB; exact Hi).
+    rewrite (seek_cut (sc_src c) sB p j Hj HiB).
+    destruct (sc_src c); eexists; split; reflexivity.
+  - rewrite (wf_offset p Hp), (wf_payload_size p Hp).
+    set (sB := set_mem st _).
+    assert (HiB : s_in sB = firstn j (p_payload p)) by (subst sB; exact Hi).
+    rewrite (read_cut_payload sB p j Hj HiB). eexists; split; reflexivity.
+Qed.
+
+(* one load_cdp *)
+Inductive load_res := LR_cdp (off : N) (q : packet) (rest : list packet) | LR_cut (off : N) (p : packet) | LR_eof | LR_invalid_input.
+Definition load_outcome (c : scfg) (off : N) (pkts : list packet) (tl : tail) : load_res :=
   match split_match c off pkts with
-  | None => exists st', load_cdp true fuel c st = (st', SErr E_eof) /\ s_in st' = []
-  | Some (off', q, rest) =>
-      exists st', load_cdp true fuel c st = (st', SOk (mk_cdp c (off', q))) /\
-                  at_pkts st' (off' + p_size q) rest
+  | Some (off', q, rest) => LR_cdp off' q rest
+  | None => match tail_loop c tl with
+            | TR_eof => LR_eof
+            | TR_match p _ => LR_cut (tail_off off pkts) p
+            | TR_invalid_input => LR_invalid_input
+            end
+  end.
+
+Lemma load_cdp_spec c pkts tl fuel st off :
+  Forall wf_pkt pkts -> tail_ok tl -> (length pkts + need tl <= S fuel)%nat -> at_pkts st off pkts tl ->
+  match load_outcome c off pkts tl with
+  | LR_cdp off' q rest => exists st', load_cdp true fuel c st = (st', SOk (mk_cdp c (off', q))) /\
+                                      at_pkts st' (off' + p_size q) rest tl
+  | LR_cut off' p => exists st', load_cdp true fuel c st = (st', SOk (cut_cdp off' p)) /\ s_in st' = []
+  | LR_eof => exists st', load_cdp true fuel c st = (st', SErr E_eof) /\ s_in st' = []
+  | LR_invalid_input => exists st', load_cdp true fuel c st = (st', SErr E_invalid_input) /\ s_in st' = []
   end.
 Proof.
-  intros Hwf Hfuel Hat. unfold load_cdp.
-  pose proof (load_rdh_cru_spec c pkts fuel st off Hwf Hfuel Hat) as HL.
+  intros Hwf Hok Hfuel Hat. unfold load_cdp, load_outcome.
+  pose proof (load_rdh_cru_spec c pkts tl fuel st off Hwf Hok Hfuel Hat) as HL.
   destruct (split_match c off pkts) as [[[off' q] rest]|] eqn:Hs.
   - destruct HL as (st1 & HL & Hi & Hm). rewrite HL.
     destruct (split_match_wf c pkts off off' q rest Hwf Hs) as [Hq _].
     rewrite Hm. apply finish_cdp_spec; assumption.
-  - destruct HL as (st1 & HL & Hi). rewrite HL. eexists; split; [reflexivity|exact Hi].
+  - destruct tl as [|b|p j]; cbn [tail_loop] in *.
+    + destruct HL as (st1 & HL & Hi). rewrite HL. eexists; split; [reflexivity|exact Hi].
+    + destruct HL as (st1 & HL & Hi). rewrite HL. eexists; split; [reflexivity|exact Hi].
+    + destruct (pmatch c p) eqn:Hpm.
+      * destruct HL as (st1 & HL & Hi & Hm). rewrite HL, Hm.
+        destruct Hok as [Hp Hj]. apply finish_cdp_cut with (j := j); assumption.
+      * destruct (sc_src c); destruct HL as (st1 & HL & Hi); rewrite HL; eexists; (split; [reflexivity|exact Hi]).
 Qed.
 
 (* ------------------------------------------------------------------ the whole scan *)
@@ -262,25 +469,57 @@ Proof.
   destruct (pmatch c p); [reflexivity|]. apply IH.
 Qed.
 
-Lemma scan_flat_spec c : forall n pkts fuel st off,
-  (length pkts <= n)%nat -> Forall wf_pkt pkts -> (length pkts < fuel)%nat -> at_pkts st off pkts ->
-  exists st', scan_flat true fuel c st = (st', map (mk_cdp c) (selected c off pkts), End_normal).
+(* what the tail contributes to the scan: an extra CDP for a matching cut packet, and how reading ends *)
+Definition tail_cdps (c : scfg) (off : N) (tl : tail) : list cdp :=
+  match tail_loop c tl with TR_match p _ => [cut_cdp off p] | _ => [] end.
+Definition tail_end (c : scfg) (tl : tail) : scan_end :=
+  match tail_loop c tl with TR_invalid_input => End_batch_dropped | _ => End_normal end.
+
+Lemma tail_off_split c pkts off off' q rest :
+  split_match c off pkts = Some (off', q, rest) -> tail_off (off' + p_size q) rest = tail_off off pkts.
 Proof.
-  induction n as [|n IH]; intros pkts fuel st off Hn Hwf Hfuel Hat.
+  intros H. destruct (split_match_some c pkts off off' q rest H) as (sk & -> & -> & _).
+  unfold tail_off, total_size. rewrite fold_right_app. cbn [fold_right].
+  assert (G : forall (l : list packet) (a : N), fold_right (fun p a => p_size p + a) a l = fold_right (fun p a => p_size p + a) 0 l + a).
+  { induction l as [|x l IHl]; intros a; cbn [fold_right]; [lia|]. rewrite IHl. lia. }
+  rewrite (G sk (p_size q + _)). lia.
+Qed.
+
+Lemma scan_flat_spec c : forall n pkts tl fuel st off,
+  (length pkts <= n)%nat -> Forall wf_pkt pkts -> tail_ok tl -> (length pkts + need tl < fuel)%nat ->
+  at_pkts st off pkts tl ->
+  exists st', scan_flat true fuel c st =
+              (st', map (mk_cdp c) (selected c off pkts) ++ tail_cdps c (tail_off off pkts) tl, tail_end c tl).
+Proof.
+  induction n as [|n IH]; intros pkts tl fuel st off Hn Hwf Hok Hfuel Hat.
   - destruct pkts; [|cbn in Hn; lia].
     destruct fuel as [|f]; [lia|]. cbn [scan_flat].
-    pose proof (load_cdp_spec c [] f st off Hwf ltac:(cbn; lia) Hat) as HL. cbn [split_match] in HL.
-    destruct HL as (st' & HL & _). rewrite HL. eexists; reflexivity.
+    pose proof (load_cdp_spec c [] tl f st off Hwf Hok ltac:(cbn in *; lia) Hat) as HL.
+    unfold load_outcome in HL. cbn [split_match] in HL.
+    unfold tail_cdps, tail_end. cbn [selected with_offsets filter map app].
+    destruct (tail_loop c tl) as [|p j|] eqn:Ht.
+    + destruct HL as (st' & HL & _). rewrite HL. eexists; reflexivity.
+    + destruct HL as (st1 & HL & Hi). rewrite HL.
+      (* after the cut packet the input is exhausted: one more load sees EOF *)
+      destruct f as [|f']; [destruct tl; cbn in *; try discriminate; lia|].
+      cbn [scan_flat]. unfold load_cdp, load_rdh_cru. rewrite (read_eof st1 Hi). eexists; reflexivity.
+    + destruct HL as (st' & HL & _). rewrite HL. eexists; reflexivity.
   - destruct fuel as [|f]; [lia|]. cbn [scan_flat].
-    pose proof (load_cdp_spec c pkts f st off Hwf ltac:(lia) Hat) as HL.
-    rewrite selected_split.
+    pose proof (load_cdp_spec c pkts tl f st off Hwf Hok ltac:(lia) Hat) as HL.
+    unfold load_outcome in HL. rewrite selected_split.
     destruct (split_match c off pkts) as [[[off' q] rest]|] eqn:Hs.
     + destruct HL as (st1 & HL & Hat1). rewrite HL.
       destruct (split_match_wf c pkts off off' q rest Hwf Hs) as [_ Hrest].
       pose proof (split_match_length c pkts off off' q rest Hs) as Hlen.
-      destruct (IH rest f st1 (off' + p_size q) ltac:(lia) Hrest ltac:(lia) Hat1) as (st2 & H2).
-      rewrite H2. eexists; reflexivity.
-    + destruct HL as (st' & HL & _). rewrite HL. eexists; reflexivity.
+      destruct (IH rest tl f st1 (off' + p_size q) ltac:(lia) Hrest Hok ltac:(lia) Hat1) as (st2 & H2).
+      rewrite H2. rewrite (tail_off_split c pkts off off' q rest Hs). eexists; reflexivity.
+    + unfold tail_cdps, tail_end. cbn [map app].
+      destruct (tail_loop c tl) as [|p j|] eqn:Ht.
+      * destruct HL as (st' & HL & _). rewrite HL. eexists; reflexivity.
+      * destruct HL as (st1 & HL & Hi). rewrite HL.
+        destruct f as [|f']; [destruct tl; cbn in *; try discriminate; lia|].
+        cbn [scan_flat]. unfold load_cdp, load_rdh_cru. rewrite (read_eof st1 Hi). eexists; reflexivity.
+      * destruct HL as (st' & HL & _). rewrite HL. eexists; reflexivity.
 Qed.
 
 (* ------------------------------------------------------------------ batches *)
@@ -332,7 +571,7 @@ Proof.
   destruct Hp as ((Hl & _) & _). cbn [length]. lia.
 Qed.
 
-Lemma scan_fuel_enough pkts : Forall wf_pkt pkts -> (length pkts < scan_fuel (serialize pkts))%nat.
+Lemma scan_fuel_enough pkts : Forall wf_pkt pkts -> (length pkts + 1 < scan_fuel (serialize pkts))%nat.
 Proof.
   intros H. pose proof (serialize_length pkts H) as HL. unfold scan_fuel.
   assert (length pkts <= length (serialize pkts) / 64)%nat.
@@ -341,15 +580,16 @@ Proof.
 Qed.
 
 (* the theorem, for a scanner that samples the packet offset after load_rdh_cru *)
-Lemma c03_scan_exact_when (b : bool) : b = true -> forall c pkts, Forall wf_pkt pkts ->
-  so_batches (scan b c (serialize pkts)) = chunk CAP (map (mk_cdp c) (selected c 0 pkts)) /\
-  concat (so_batches (scan b c (serialize pkts))) = map (mk_cdp c) (selected c 0 pkts) /\
-  so_end (scan b c (serialize pkts)) = End_normal.
+Lemma c03_scan_exact_when (b k : bool) : b = true -> forall c pkts, Forall wf_pkt pkts ->
+  so_batches (scan b k c (serialize pkts)) = chunk CAP (map (mk_cdp c) (selected c 0 pkts)) /\
+  concat (so_batches (scan b k c (serialize pkts))) = map (mk_cdp c) (selected c 0 pkts) /\
+  so_end (scan b k c (serialize pkts)) = End_normal.
 Proof.
   intros -> c pkts Hwf. unfold scan.
-  destruct (scan_flat_spec c (length pkts) pkts (scan_fuel (serialize pkts)) (sinit (serialize pkts)) 0
-              (le_n _) Hwf (scan_fuel_enough pkts Hwf) (conj eq_refl eq_refl)) as (st' & H).
-  rewrite H. cbn [so_batches so_end batches_of].
+  destruct (scan_flat_spec c (length pkts) pkts TL_none (scan_fuel (serialize pkts)) (sinit (serialize pkts)) 0
+              (le_n _) Hwf I (scan_fuel_enough pkts Hwf)
+              (conj (eq_sym (app_nil_r _)) eq_refl)) as (st' & H).
+  rewrite H. unfold tail_cdps, tail_end. cbn [tail_loop]. rewrite app_nil_r. cbn [so_batches so_end batches_of].
   split; [reflexivity|]. split; [apply chunk_concat, CAP_pos | reflexivity].
 Qed.
 
@@ -390,8 +630,8 @@ Proof. repeat constructor; apply wf_pktb_sound; vm_compute; reflexivity. Qed.
 
 Lemma c03_refuted_when_offset_sampled_before :
   Forall wf_pkt f1_pkts /\
-  concat (so_batches (scan false f1_cfg (serialize f1_pkts))) <> map (mk_cdp f1_cfg) (selected f1_cfg 0 f1_pkts) /\
-  map c_off (concat (so_batches (scan false f1_cfg (serialize f1_pkts)))) = [0] /\
+  concat (so_batches (scan false true f1_cfg (serialize f1_pkts))) <> map (mk_cdp f1_cfg) (selected f1_cfg 0 f1_pkts) /\
+  map c_off (concat (so_batches (scan false true f1_cfg (serialize f1_pkts)))) = [0] /\
   map fst (selected f1_cfg 0 f1_pkts) = [64].
 Proof.
   split; [exact f1_wf|]. split; [|split; vm_compute; reflexivity].
